@@ -31,7 +31,9 @@ def validate(events, module_name, shards=NCPU, timeout=900):
     with cf.ThreadPoolExecutor(n) as ex:
         for path, res in ex.map(_run_shard, paths):
             if res["errors"] or not res["finished"] or any("violated" in v for v in res["violated"]):
-                tail = "\n".join(res["stdout"].splitlines()[-30:])
+                lines = res["stdout"].splitlines()
+                k = next((i for i, l in enumerate(lines) if l.startswith("Error:")), max(0, len(lines) - 30))
+                tail = "\n".join(l for l in lines[k:k + 60] if not l.startswith(("State ", "l = ")) and l.strip())
                 raise tlc.TLCError(f"trace validation failed to run to the end of {path}:\n{tail}")
             states += res["distinct"]
             for raw in tlc.printed_tuples(res["stdout"]):
